@@ -1,6 +1,7 @@
 package cssval
 
 import (
+	"encoding/base64"
 	"fmt"
 	"strings"
 
@@ -133,21 +134,30 @@ func compEqual(a, b *Comp, mode Mode) string {
 		if ca, ok := funcColor(a); ok {
 			cb, ok := ColorOf(b)
 			if !ok || !ca.Equal(cb) {
-				return "colour " + diff()
+				return "[colour-value] " + diff()
 			}
 			return ""
 		}
 	}
 	if ua, ok := urlValue(a); ok && mode != ModeStrict {
 		ub, ok := urlValue(b)
-		if !ok || ua != ub {
-			return "url " + diff()
+		if !ok || !urlEqual(ua, ub) {
+			return "[url-value] " + diff()
 		}
 		return ""
 	}
 	if a.Kind != b.Kind {
-		if mode == ModeTop && a.Kind == KDimension && b.Kind == KNumber && numZero(a.Num) && numZero(b.Num) && lengthUnits[lower(a.Unit)] {
-			return ""
+		if (a.Kind == KDimension || a.Kind == KPercentage) && b.Kind == KNumber && numZero(a.Num) && numZero(b.Num) {
+			isLen := a.Kind == KDimension && lengthUnits[lower(a.Unit)]
+			switch {
+			case mode == ModeTop && isLen:
+				return ""
+			case mode != ModeTop:
+				return "[zero-unit-in-function] " + diff()
+			case a.Kind == KPercentage:
+				return "[zero-percent-unit] " + diff()
+			}
+			return "[zero-" + lower(a.Unit) + "-unit] " + diff()
 		}
 		return diff()
 	}
@@ -157,8 +167,8 @@ func compEqual(a, b *Comp, mode Mode) string {
 			return diff()
 		}
 	case KString:
-		if a.Val != b.Val {
-			return "string " + diff()
+		if mode == ModeStrict && a.Raw != b.Raw || a.Val != b.Val {
+			return "[string-value] " + diff()
 		}
 	case KNumber, KPercentage:
 		if mode == ModeStrict {
@@ -166,7 +176,7 @@ func compEqual(a, b *Comp, mode Mode) string {
 				return diff()
 			}
 		} else if !numEq(a.Num, b.Num) {
-			return "number " + diff()
+			return "[number-value] " + diff()
 		}
 	case KDimension:
 		if mode == ModeStrict {
@@ -174,10 +184,10 @@ func compEqual(a, b *Comp, mode Mode) string {
 				return diff()
 			}
 		} else if !numEq(a.Num, b.Num) || lower(a.Unit) != lower(b.Unit) {
-			return "dimension " + diff()
+			return "[number-value] " + diff()
 		}
 	case KFunction:
-		if mode == ModeStrict && a.Val != b.Val || lower(a.Val) != lower(b.Val) || a.Closed != b.Closed {
+		if mode == ModeStrict && a.Val != b.Val || lower(a.Val) != lower(b.Val) {
 			return diff()
 		}
 		m := ModeNested
@@ -186,9 +196,7 @@ func compEqual(a, b *Comp, mode Mode) string {
 		}
 		return GenericEqual(a.Args, b.Args, m)
 	case KLParen, KLBracket, KLBrace:
-		if a.Closed != b.Closed {
-			return diff()
-		}
+		// a block left open at the end of the input is closed implicitly (CSS Syntax §5.4.8)
 		m := ModeNested
 		if mode == ModeStrict {
 			m = ModeStrict
@@ -257,26 +265,47 @@ func (l Longhands) String() string {
 	return b.String()
 }
 
-// EqualLonghands compares two expansions.
-func EqualLonghands(a, b Longhands) bool {
-	if len(a) != len(b) {
-		return false
+// Tag returns the sub-domain tag of an expansion ("" when none). Tags are derived from the
+// input value alone and only refine Diff.Kind; they take no part in the comparison.
+func (l Longhands) Tag() string {
+	if len(l) > 0 && l[0].Name == "#tag" {
+		return l[0].V[0].S
 	}
+	return ""
+}
+
+func (l Longhands) untagged() Longhands {
+	if l.Tag() != "" {
+		return l[1:]
+	}
+	return l
+}
+
+// EqualLonghands compares two expansions.
+func EqualLonghands(a, b Longhands) bool { return DiffLonghands(a, b) == "" }
+
+// DiffLonghands returns "" when the expansions are equal, else the name of the first
+// longhand whose value differs.
+func DiffLonghands(a, b Longhands) string {
+	a, b = a.untagged(), b.untagged()
 	for i := range a {
-		if a[i].Name != b[i].Name || len(a[i].V) != len(b[i].V) {
-			return false
+		if i >= len(b) || a[i].Name != b[i].Name || len(a[i].V) != len(b[i].V) {
+			return a[i].Name
 		}
 		for j := range a[i].V {
 			if !lvEqual(a[i].V[j], b[i].V[j]) {
-				return false
+				return a[i].Name
 			}
 		}
 	}
-	return true
+	if len(a) != len(b) {
+		return "layers"
+	}
+	return ""
 }
 
-func s(x string) LV        { return LV{S: x} }
-func one(x string) []LV    { return []LV{{S: x}} }
+func s(x string) LV     { return LV{S: x} }
+func one(x string) []LV { return []LV{{S: x}} }
 func kw(c *Comp) string {
 	if c.Kind == KIdent {
 		return lower(c.Val)
@@ -378,4 +407,59 @@ func hasVar(cs []Comp) bool {
 		}
 	}
 	return false
+}
+
+// dataURI decodes a data: URL (RFC 2397) to its normalised media type and payload bytes.
+func dataURI(u string) (mt string, payload []byte, ok bool) {
+	if len(u) < 5 || !strings.EqualFold(u[:5], "data:") {
+		return "", nil, false
+	}
+	rest := u[5:]
+	comma := strings.IndexByte(rest, ',')
+	if comma < 0 {
+		return "", nil, false
+	}
+	head, data := rest[:comma], rest[comma+1:]
+	b64 := false
+	if i := strings.LastIndexByte(head, ';'); i >= 0 && strings.EqualFold(strings.TrimSpace(head[i+1:]), "base64") {
+		b64 = true
+		head = head[:i]
+	}
+	head = lower(strings.Join(strings.Fields(head), ""))
+	parts := strings.Split(head, ";")
+	if parts[0] == "" {
+		parts[0] = "text/plain"
+	}
+	mt = parts[0]
+	for _, p := range parts[1:] {
+		if p != "" && p != "charset=us-ascii" {
+			mt += ";" + p
+		}
+	}
+	if b64 {
+		p, err := base64.StdEncoding.DecodeString(data)
+		if err != nil {
+			return "", nil, false
+		}
+		return mt, p, true
+	}
+	for i := 0; i < len(data); i++ {
+		if data[i] == '%' && i+2 < len(data) && hexVal(data[i+1]) >= 0 && hexVal(data[i+2]) >= 0 {
+			payload = append(payload, byte(hexVal(data[i+1])<<4|hexVal(data[i+2])))
+			i += 2
+			continue
+		}
+		payload = append(payload, data[i])
+	}
+	return mt, payload, true
+}
+
+// urlEqual: equal strings, or two data: URLs with the same media type and payload.
+func urlEqual(a, b string) bool {
+	if a == b {
+		return true
+	}
+	ma, pa, ok1 := dataURI(a)
+	mb, pb, ok2 := dataURI(b)
+	return ok1 && ok2 && ma == mb && string(pa) == string(pb)
 }
